@@ -188,6 +188,10 @@ func main() {
 	})
 	ctx.Jobs("search", len(jobs), func(j int) { sp.RunPlanCfgShard(ctx, jobs[j].p, jobs[j].cfg, jobs[j].op, check) })
 	ctx.Jobs("sweep", sweepParts, func(j int) { sweep(j, sweepParts) })
+	if !ctx.IsChild() {
+		ctx.RacePairs("smf-write")
+		ctx.RacePairs("smf-read")
+	}
 
 	var planInfo []map[string]interface{}
 	for _, p := range pl {
